@@ -162,6 +162,17 @@ func famRecreate(cloud bool, bounds map[string]int, extraThread string) []*Scena
 						{"resync", func() { _ = w.Resync() }},
 					}
 					switch extraThread {
+					case "other":
+						// a different pod that wants an IP from the same (two-address) pool at the same time
+						o := wkClass{"sts", ""}.pod(7)
+						w.SetStatefulSet("ns", "a", 8)
+						w.CreatePod(o)
+						// three threads: resync | old incarnation's events followed by the new incarnation's scheduling | the other pod
+						ths = []Thread{
+							{"resync", func() { _ = w.Resync() }},
+							{"deliver-old+sched-new", func() { deliverAll(w, old)(); scheduleRetry(w, p.Key(), 2)() }},
+							{"sched-other", scheduleRetry(w, o.Key(), 1)},
+						}
 					case "syncpodips":
 						ths = append(ths, Thread{"syncpodips", func() { w.SyncPodIPs() }})
 					case "run-new":
@@ -283,6 +294,40 @@ func famAPIRelease(cloud bool, bounds map[string]int) []*Scenario {
 					{"recreate+sched", func() {
 						w.CreatePod(p)
 						scheduleRetry(w, p.Key(), 2)()
+					}},
+					{"resync", func() { _ = w.Resync() }},
+				}
+			},
+			Final: quiesce,
+		})
+	}
+	return out
+}
+
+// famMove: one identity is scheduled, deleted and scheduled again (possibly on another node of the same subnet), each
+// step retried after a provider failure; everything sequential in one thread plus a concurrent resync.
+func famMove(bounds map[string]int) []*Scenario {
+	var out []*Scenario
+	for _, c := range []wkClass{{"sts", ""}, {"sts", "immutable"}, {"sts", "never"}, {"dp", "immutable"}, {"bare", "never"}} {
+		c := c
+		out = append(out, &Scenario{Name: "move/" + c.String(), Class: c.String(), Cfg: cfgOnePool(2, true), Bounds: bounds, Weight: 3,
+			Build: func(w *world.World) []Thread {
+				c.setWorkload(w, 1)
+				p := c.pod(0)
+				w.CreatePod(p)
+				return []Thread{
+					{"lifecycle", func() {
+						scheduleRetry(w, p.Key(), 2)()
+						w.DeletePod(p.Key())
+						for len(w.Pending) > 0 {
+							w.Deliver(0)
+						}
+						q := p
+						if c.Kind == "dp" {
+							q = c.pod(1)
+						}
+						w.CreatePod(q)
+						scheduleRetry(w, q.Key(), 2)()
 					}},
 					{"resync", func() { _ = w.Resync() }},
 				}
